@@ -311,6 +311,10 @@ func (e *Ev) specCall(name string, n *ast.CallExpr) (Term, bool) {
 			return e.errorf(n, "%s of non-tuple", name), true
 		}
 		return t.Tuple[k], true
+	case "maxBinaryLbp":
+		return Term{S: fmt.Sprint(e.g().maxBinaryLbp()), Sort: sInt, T: types.Typ[types.Int], Signed: true}, true
+	case "minPostfixLbp":
+		return Term{S: fmt.Sprint(e.g().minPostfixLbp()), Sort: sInt, T: types.Typ[types.Int], Signed: true}, true
 	case "mathint":
 		x := e.asInt(e.ev(n.Args[0]))
 		return Term{S: x, Sort: sInt, T: types.Typ[types.Int], Signed: true}, true
